@@ -326,6 +326,8 @@ class Arr(object):
     @property
     def dtype(self):
         from . import libmodels
+        if self.size and all(isinstance(v, (bool, Unk)) for v in self.items()) and self.kind in (None, 'b'):
+            return libmodels.BOOL            # an array of truth values (concrete or undetermined): a boolean mask
         return libmodels.CURRENT.np_result_type(self)
 
     # ---- indexing
